@@ -138,7 +138,7 @@ class PairCase:
                 if stop:
                     break
 
-    def _native(self, seed, sess=None, pc=()):
+    def _native(self, seed, sess=None, pc=(), points=None):
         """both sides natively on float64: at points ON THE PATH the failing obligation belongs to (values the path condition pins, e.g. an operand element equal to 0,
         come from a z3 model of it; the rest is sampled), then at sampled points"""
         import random
@@ -157,7 +157,9 @@ class PairCase:
                 m = _model_env(sol.model())
                 for _ in range(3):
                     pinned.append({l.name: np.array([m.get(n, domain_sample(rng, l.domain)) for n in var_names(l.name, l.shape)], dtype=np.float64).reshape(l.shape) for l in self.leaves})
-        for k_ in range(5 + len(pinned)):
+        if points is not None:
+            pinned = list(points)
+        for k_ in range((0 if points is not None else 5) + len(pinned)):
             vals = pinned[k_] if k_ < len(pinned) else {l.name: np.array([domain_sample(rng, l.domain) for _ in var_names(l.name, l.shape)]).reshape(l.shape) for l in self.leaves}
             try:
                 with shim.native():
@@ -247,6 +249,42 @@ def float_stress(run, cases, seed):
                                   "values %s vs %s" % (np.dtype(dt).name, "finite" if fin[0] else "NOT finite", "finite" if fin[1] else "NOT finite", v1.ravel()[:4].tolist(), v2.ravel()[:4].tolist()),
                                   key=key, replay={"x": x.tolist(), "upstream": gv.tolist(), "lhs_value": v1.tolist(), "rhs_value": v2.tolist(), "lhs_grad": g1.tolist(), "rhs_grad": g2.tolist(), **key},
                                   reproduced=True)
+
+
+def special_points_part(run, cases, seed):
+    """Bounded, native (float64): the proof explores the branches of a comparison strictly (ties have measure zero), so what a form does AT a tie -- an operand element
+    exactly 0, two equal elements -- is evaluated here for the identities whose both sides are smooth there (everything except pooling and max/min, where a tie is a kink
+    and any subgradient is right): one leaf at a time gets exact zeros in every other position (leaves with an unrestricted domain only), the others random; values, gradients
+    and second-sweep gradients of the two forms must coincide."""
+    import random
+    for c in cases:
+        if not isinstance(c, PairCase) or "pool" in c.name or "max" in c.name or "min" in c.name:
+            continue
+        rng = random.Random("%s|%s|special" % (c.name, seed))
+        pts = []
+        for l in c.leaves:
+            if l.domain != "any" or not l.shape:
+                continue
+            for phase in (0, 1):
+                vals = {m.name: np.array([domain_sample(rng, m.domain) for _ in var_names(m.name, m.shape)], dtype=np.float64).reshape(m.shape) for m in c.leaves}
+                flat = vals[l.name].reshape(-1)
+                flat[phase::2] = 0.0
+                vals[l.name] = flat.reshape(l.shape)
+                pts.append(vals)
+        if not pts:
+            continue
+        run.rt(("special-points", c.name, str(sorted(c.key.items()))[:200]))
+        try:
+            with np.errstate(all="ignore"):
+                rep = c._native(seed, points=pts)
+        except Exception as e:
+            run.error("special points of %s: %s: %s" % (c.name, type(e).__name__, e))
+            continue
+        if rep.get("reproduced") and not rep.get("native_exception"):
+            finite = all(np.all(np.isfinite(np.asarray(v, dtype=np.float64))) for v in (rep.get("lhs_value"), rep.get("rhs_value")) if v is not None)
+            if finite:
+                run.violation("%s.forms_coincide_at_exact_zeros" % c.name, "%s %s: with exact zeros in an operand the two forms differ: inputs %s; left gradients %s, right gradients %s" %
+                              (c.name, c.key, rep.get("inputs"), rep.get("lhs_grads"), rep.get("rhs_grads")), key={**c.key, "clause": "exact zeros"}, replay=rep)
 
 
 def dtype_part(run, seed):
@@ -379,6 +417,17 @@ def identities(tier):
             return F.matmul(F.unsqueeze(wm, 0), cols) + F.reshape(T["b"], (1, 2, 1))
         cs.append(PairCase("conv1d=unfold;matmul", {"L": Lx, "kernel": k, "stride": s, "padding": p, "dilation": d}, [L("x", (1, 2, Lx)), L("w", (2, 2, k)), L("b", (2,))],
                            lambda T, s=s, p=p, d=d: NF.conv1d(T["x"], T["w"], T["b"], s, p, d), conv1_rhs, functions=(NFN + "conv1d",)))
+    # 1-d pooling with padding (few windows, so every ordering of the operand's elements is a path): the padding never competes with the operand
+    for (Lx, k, s, p, d) in [(3, 2, 2, 1, 1), (4, 2, 1, 1, 1), (5, 2, 2, 1, 2), (4, 3, 2, 1, 1), (4, 2, 3, 1, 1)]:
+        l = out_len(Lx, k, s, p, d)
+
+        def pool1_rhs(T, kind, k=k, s=s, p=p, d=d, l=l):
+            cols = NF.unfold(F.unsqueeze(T["x"], 2), (1, k), (1, d), (1, s), (0, p), float("-inf") if kind == "max" else 0)      # (1, k, l)
+            red = F.max(cols, 1) if kind == "max" else F.mean(cols, 1)
+            return F.reshape(red, (1, 1, l))
+        for kind, fn in (("max", NF.max_pool1d), ("avg", NF.avg_pool1d)):
+            cs.append(PairCase("%s_pool1d=windows;%s" % (kind, "max" if kind == "max" else "mean"), {"L": Lx, "kernel": k, "stride": s, "padding": p, "dilation": d}, [L("x", (1, 1, Lx))],
+                               lambda T, fn=fn, k=k, s=s, p=p, d=d: fn(T["x"], k, s, p, d), lambda T, kind=kind, pr=pool1_rhs: pr(T, kind), functions=(NFN + kind + "_pool1d",), max_paths=2500))
     # ---- modules
     def neuron(T):
         m = nn.Neuron(3)
@@ -462,5 +511,6 @@ def main(tier="quick", seed=0, procs=None, only=None):
     run.assume("floating point: besides the proof over the reals, the softmax-type identities are evaluated natively in float32/float64 on rows at very different scales "
                "(bounded run-time part, counted as bounded evaluations, not as discharged obligations)")
     float_stress(run, cases, seed)
+    special_points_part(run, cases, seed)
     dtype_part(run, seed)
     return run.finish()
